@@ -10,9 +10,13 @@ import (
 
 // c07Oracle: remember-me cookies are single-use, bound to one user, grant
 // half-auth only, and are issued only on request.
-type c07Oracle struct{}
+type c07Oracle struct {
+	// startRM[browser]: whether this browser's most recent OAuth2 start request
+	// asked to be remembered
+	startRM map[int]bool
+}
 
-func newC07Oracle(w *World) Oracle { return &c07Oracle{} }
+func newC07Oracle(w *World) Oracle { return &c07Oracle{startRM: map[int]bool{}} }
 
 func pidClass(pid string) string {
 	switch {
@@ -40,6 +44,13 @@ func (c *c07Oracle) Check(w *World, o *Obs) []Violation {
 		return nil
 	}
 	st := o.Step
+	if st.Kind == "oauth2_start" && !o.errorOutcome() {
+		asked := strings.Contains(o.Target, "rm=true")
+		if c.startRM[st.B] && !asked {
+			w.Stats.Reach["c07_plain_start_after_rm_start"]++
+		}
+		c.startRM[st.B] = asked
+	}
 	cookie := o.presented("cookie")
 	isProbe := st.Kind == "probe"
 	faulted := o.FaultFired != "" || o.Panic != ""
@@ -100,10 +111,11 @@ func (c *c07Oracle) Check(w *World, o *Obs) []Violation {
 			asked, loginKind = st.RM, true
 		case "oauth2_callback":
 			loginKind = true
+			// what the flow's own start request asked for, not whatever an
+			// earlier, abandoned attempt left in the session
+			asked = c.startRM[st.B]
 			var params map[string]string
-			if json.Unmarshal([]byte(o.SessBefore["oauth2_params"]), &params) == nil {
-				asked = params["rm"] == "true"
-			}
+			_ = json.Unmarshal([]byte(o.SessBefore["oauth2_params"]), &params)
 		}
 		_, putRM := hasPut(o.CookEvents, "rm")
 		if putRM && !asked {
